@@ -845,6 +845,15 @@ func (base *Type) mixin(derived *Type) {
 
 	if derived.enums == nil {
 		derived.enums = base.enums
+	} else {
+		// RFC7950 Sec 9.6.4.2 - a derived type restricts the set, names keep their value
+		for _, item := range derived.enums {
+			for _, orig := range base.enums {
+				if orig.ident == item.ident && !item.valSet {
+					item.val, item.valSet = orig.val, true
+				}
+			}
+		}
 	}
 	if len(derived.base) == 0 {
 		derived.base = base.base
